@@ -2,7 +2,7 @@
 import networkx as nx
 import hypothesis.strategies as st
 
-from . import gp, gpcheck
+from . import gp, gpcheck, model as mdl
 from .core import Violation, Reject, crash
 from .itp import inter_multiset
 
@@ -38,6 +38,10 @@ mol 1
 
 
 def check(spec, ctx):
+    pre = mdl.expected(spec)
+    if pre.invalid:
+        from .core import Reject
+        raise Reject(pre.invalid)
     run, written = gpcheck.execute(spec, ctx, clause="written")
     molecule = run.captured.get("molecule")
     if molecule is None:
